@@ -66,13 +66,13 @@ def frameMaterial (key : Bytes) : List Bytes → Nat → Option Bytes
 
 def digest8 (bs : Bytes) : String := bytesToHex ((Sha256.sha256 bs).take 8)
 
-/-- summary of one direction's handshake bytes: eph message then sealed frames -/
+/-- summary of one direction's handshake bytes (eph message then sealed frames): number of
+    frames and a digest of the RAW bytes; the frames must open under `key` from counter 0 -/
 def wsum (key : Bytes) (wire : Bytes) : String :=
-  let eph := wire.take 35
   let fs := framesOf (wire.drop 35) (wire.length / sealedFrameSize + 1)
   match frameMaterial key fs 0 with
   | none => "undecryptable"
-  | some m => s!"{fs.length}:{digest8 (eph ++ m)}"
+  | some _ => s!"{fs.length}:{digest8 wire}"
 
 def hexOrNone (s : String) : Option (Option Bytes) :=
   if s == "-" then some none else (hexToBytes s).map some
@@ -100,9 +100,9 @@ def runHs (t : List String) : Option (St × String) := do
     let sigA ← hexToBytes sigA; let sigB ← hexToBytes sigB
     let P := primsHs ephA ephPubA ephB ephPubB dh okm seedA pubA sigA seedB pubB sigB
     -- what B writes does not depend on A's auth message: run B on A's eph message alone first
-    let b0 := makeSecretConnection P aead [] seedB ephB (encEph ephPubA)
-    let ra := makeSecretConnection P aead [] seedA ephA b0.written
-    let rb := makeSecretConnection P aead [] seedB ephB ra.written
+    let b0 := makeSecretConnection P aead seedB ephB (encEph ephPubA)
+    let ra := makeSecretConnection P aead seedA ephA b0.written
+    let rb := makeSecretConnection P aead seedB ephB ra.written
     match ra.result, rb.result with
     | .ok sa, .ok sb =>
       let st : St := { a := some sa, b := some sb, qab := rb.rest, qba := ra.rest,
@@ -120,7 +120,7 @@ def runHs (t : List String) : Option (St × String) := do
     let pubA ← hexToBytes pubA; let sigA ← hexToBytes sigA
     let P : Prims := { ephPub := fun _ => ephPubA, dh := fun _ _ => dh, kdf := fun _ => okm,
                        pubKey := fun _ => pubA, sign := fun _ _ => sigA, verify := fun _ _ _ => v == "1" }
-    let ra := makeSecretConnection P aead [] seedA ephA incoming
+    let ra := makeSecretConnection P aead seedA ephA incoming
     match ra.result with
     | .ok sa => pure ({}, s!"ok rem={bytesToHex sa.remPubKey} w={ra.written.length} rest={ra.rest.length}")
     | .error e => pure ({}, s!"err:{hsErrName e}")
@@ -194,13 +194,13 @@ def step (st : St) (t : List String) : St × String :=
         match hexToBytes arg with
         | none => (st, "err:badop")
         | some data =>
-          let w := write aead [] snd data
+          let w := write aead snd data
           let fs := framesOf w.wire (w.wire.length / sealedFrameSize + 1)
           let st' := put w.sc rcv (q ++ w.wire) (log ++ fs)
           if w.panicked then (st', "panic:nonce") else
           match frameMaterial snd.sendKey fs (leNat ((snd.sendNonce.drop 4).take 8)) with
           | none => (st', "err:wire")
-          | some m => (st', s!"ok n={w.n} fr={fs.length} d={digest8 m}")
+          | some _ => (st', s!"ok n={w.n} fr={fs.length} d={digest8 w.wire}")
       | "r" =>
         match parseNat arg with
         | none => (st, "err:badop")
